@@ -666,7 +666,6 @@ static int extractGenerator(KSI_CTX *ctx, void *payload, void *generatorCtx, con
 
 		for (i = tmplStart; i < template_len; i++) {
 			if (tmpl[i].tag != KSI_TLV_getTag(tlv)) continue;
-			if (i == tmplStart && !tmpl[i].multiple) tmplStart++;
 
 			tr[tr_len].desc = tmpl[i].descr;
 
